@@ -81,7 +81,7 @@ package ecmascript
 //@   writes[C10,C12] nothing
 //@   argfrom[C10,C12] RunProgram#0 goja.New
 //@   across RunProgram: exe != nil && exe.Events != nil && exe.Events.Traces != nil && fresh(exe) && fresh(exe.Events)
-//@   onwrite[C10] env: ref(value) == nil || ref(value) >= mark || isfunc(value) || key == "ctx"
+//@   onwrite[C10,C18] env: ref(value) == nil || ref(value) >= mark || isfunc(value) || key == "ctx"
 //@   onwrite[C09] env: key == "bindings" ==> ref(value) == ref(lastret(core.Canonicalize, y))
 //@   ensures[C07] total: exe != nil || err != nil
 //@   ensures[C07] wf: exe != nil ==> exe.Events != nil && exe.Events.Traces != nil && fresh(exe) && fresh(exe.Events)
